@@ -166,7 +166,7 @@ def _r2(ctx: Context, tree: str, N: Names) -> None:
             if "proxy_origin" in kw:
                 ok = ok and kw["proxy_origin"] in ("self._proxy.url.origin", "self._proxy_url.origin")
             rep.ob("C10.R2", fkey(tree, f, f"{name}()"), ok, where(f, c), f"{name}({kw})")
-    rep.floor("C10.R2", f"establishment argument sites ({tree})", n, 18)
+    rep.floor("C10.R2", f"establishment argument sites ({tree})", n, 12)
 
 
 def _tls(ctx: Context, tree: str, N: Names) -> None:
@@ -305,7 +305,7 @@ def _tls(ctx: Context, tree: str, N: Names) -> None:
             sarg = [norm(k.value) for k in c.keywords if k.arg == "stream"]
             rep.ob("C10.R6", fkey(tree, f, "ssl_object-source"), src == ["stream.get_extra_info('ssl_object')"] and sarg == ["stream"], where(f, c),
                    f"ssl_object <- {src}; connection built on stream={sarg}")
-    rep.floor("C10.R6", f"HTTP/2 connection constructions ({tree})", nsel, 3)
+    rep.floor("C10.R6", f"HTTP/2 connection constructions ({tree})", nsel, 2)
 
 
 _core_run = run
